@@ -44,6 +44,21 @@ def main():
         ctx.progress_path = a.progress
         ctx.checkpoint_path = a.out
     os.chdir(cwd)
+    cov = os.environ.get("PVM_FUNCCOV")
+    seen = set()
+    if cov and hasattr(sys, "monitoring"):
+        # self-test aid: which Python-level library functions does this
+        # check execute at all?  (one event per code object, then disabled)
+        mon = sys.monitoring
+
+        def on_start(code, _off):
+            if "pyunicorn" in code.co_filename:
+                seen.add((code.co_filename.split("pyunicorn/", 1)[-1],
+                          code.co_qualname))
+            return mon.DISABLE
+        mon.use_tool_id(mon.COVERAGE_ID, "pvm-funccov")
+        mon.register_callback(mon.COVERAGE_ID, mon.events.PY_START, on_start)
+        mon.set_events(mon.COVERAGE_ID, mon.events.PY_START)
     try:
         mod = importlib.import_module("pvm.checks." + a.prop.lower())
         if hasattr(mod, "pre_import"):
@@ -54,6 +69,11 @@ def main():
     except BaseException as e:  # noqa
         status = "crashed"
         err = traceback.format_exc()[-3000:]
+    if cov and seen:
+        os.makedirs(cov, exist_ok=True)
+        fn = os.path.join(cov, f"{a.prop}.{a.shard}.{os.getpid()}.json")
+        with open(fn, "w") as fh:
+            json.dump(sorted(seen), fh)
     d = ctx.dump()
     d["status"] = status
     d["error"] = err
